@@ -239,7 +239,8 @@ def _(lm):
 MANIFEST_ENTRY = {
     "category": "other",
     "text": ("Row handling from the decision table of parse_ods' row loop (symbolic execution of the real body; z3): each data row processed exactly once with "
-             "its sheet row and table type, blank rows skipped, any table order. Column fidelity, 11-digit conversion and the fee split as postcondition "
+             "its sheet row and table type, blank rows skipped, any table order; the row-class helpers (empty / table keyword / TABLE END) evaluated "
+             "natively on 16 cell value classes (a numeric 0 in the first column is data, not a blank row). Column fidelity, 11-digit conversion and the fee split as postcondition "
              "shapes of the real functions compared on the AST (comprehension over the configured positions, per-table header maps, '.11f', keyword "
              "bindings of the two constructor calls) plus z3 lemmas (rounding bound, coin flow, cost basis). Bounded: permuted layouts, unmapped extra "
              "columns, table orders, blank rows, 11-decimal numbers and crypto fees through the real parser, every field compared with the sheet."),
